@@ -204,4 +204,55 @@ theorem declOn_perm (q : Nat) (a b : List Ev) (h : a.Perm b) : declOn a q a = de
   exact h.any_eq
 
 
+/-! ### sorting with two comparators that agree on the list; sorting commutes with a key map -/
+
+theorem insertBy_mapK {α κ} (lt : κ → κ → Bool) (k : α → κ) (x : α) (l : List α) :
+    (insertBy (fun a b => lt (k a) (k b)) x l).map k = insertBy lt (k x) (l.map k) := by
+  induction l with
+  | nil => rfl
+  | cons y ys ih =>
+    simp only [insertBy, List.map_cons]
+    split <;> simp [ih]
+
+theorem isort_mapK {α κ} (lt : κ → κ → Bool) (k : α → κ) (l : List α) :
+    (isort (fun a b => lt (k a) (k b)) l).map k = isort lt (l.map k) := by
+  unfold isort
+  suffices ∀ acc : List α, (l.foldl (fun acc x => insertBy (fun a b => lt (k a) (k b)) x acc) acc).map k
+      = (l.map k).foldl (fun acc x => insertBy lt x acc) (acc.map k) from this []
+  induction l with
+  | nil => intro acc; rfl
+  | cons x xs ih => intro acc; simp only [List.foldl, List.map_cons]; rw [ih, insertBy_mapK]
+
+theorem insertBy_congr_mem {α} (lt1 lt2 : α → α → Bool) (x : α) : ∀ (l : List α),
+    (∀ b ∈ l, lt1 x b = lt2 x b) → insertBy lt1 x l = insertBy lt2 x l
+  | [], _ => rfl
+  | y :: ys, h => by
+    simp only [insertBy, h y (by simp)]
+    split
+    · rfl
+    · rw [insertBy_congr_mem lt1 lt2 x ys (fun b hb => h b (by simp [hb]))]
+
+theorem isort_congr_mem {α} (lt1 lt2 : α → α → Bool) (l : List α)
+    (h : ∀ a ∈ l, ∀ b ∈ l, lt1 a b = lt2 a b) : isort lt1 l = isort lt2 l := by
+  unfold isort
+  suffices ∀ (xs acc : List α), (∀ a ∈ xs, a ∈ l) → (∀ a ∈ acc, a ∈ l) →
+      xs.foldl (fun acc x => insertBy lt1 x acc) acc = xs.foldl (fun acc x => insertBy lt2 x acc) acc from
+    this l [] (fun _ h => h) (by simp)
+  intro xs
+  induction xs with
+  | nil => intros; rfl
+  | cons x xs ih =>
+    intro acc hx ha
+    simp only [List.foldl]
+    have hxl : x ∈ l := hx x (by simp)
+    rw [insertBy_congr_mem lt1 lt2 x acc (fun b hb => h x hxl b (ha b hb))]
+    apply ih
+    · intro a h1; exact hx a (by simp [h1])
+    · intro a h1
+      have := (insertBy_perm lt2 x acc).mem_iff.mp h1
+      rcases List.mem_cons.mp this with rfl | h2
+      · exact hxl
+      · exact ha a h2
+
+
 end Scalibr.Vulns
